@@ -53,9 +53,11 @@ class FlakyToyMulti(toy.ToyMulti):
 class FlakyToyBinary(toy.ToyBinary):
     """getInterfacialComposition returns the -1 sentinel for every requested size on scripted call indices."""
 
-    def __init__(self, *a, ic_faults=(), **k):
+    def __init__(self, *a, ic_faults=(), planar_none=(), **k):
         super().__init__(*a, **k)
         self.ic_faults = set(int(i) for i in ic_faults)
+        self.planar_none = set(int(i) for i in planar_none)     # planar (gExtra = 0, scalar) queries answered with (None, None), as the docstring of the real class words it
+        self.n_planar = 0
         self.n_ic = 0
         self.injected = []
         self._seen_valid = False
@@ -69,6 +71,19 @@ class FlakyToyBinary(toy.ToyBinary):
         # only whole-grid table queries are answered with the sentinel: -1 for larger radii next to valid smaller ones
         # is not something a backend can return (instability is monotone in the Gibbs-Thomson energy)
         model = getattr(self, "model", None)
+        if np.ndim(gExtra) == 0 and np.size(xa) == 1:
+            # the planar-interface query of the table builder: the model accepts "no result" there both as the -1 sentinel and as None
+            self.n_planar += 1
+            if self.n_planar in self.planar_none:
+                # "no equilibrium found at this temperature": the table query that follows for the same phase fails as well
+                # (a valid table next to a failed planar query is not something a backend can return: the planar interface is the most stable)
+                self.injected.append(("planar_none", self.n_planar, None))
+                self._grid_fails = getattr(self, "_grid_fails", set()) | {str(precPhase)}
+                return None, None
+            return xa, xb
+        if str(precPhase) in getattr(self, "_grid_fails", set()):
+            self._grid_fails.discard(str(precPhase))
+            return np.squeeze(-1.0 * np.ones(np.shape(xa))), np.squeeze(-1.0 * np.ones(np.shape(xb)))
         if model is None or np.size(xa) not in [pb.bins + 1 for pb in model.PBM]:
             return xa, xb
         self.n_ic += 1
